@@ -3271,16 +3271,50 @@ func ruleRecordKeysExplicit(rule string) func(*Ctx) {
 					continue
 				}
 				good, reach := fl.dominatedBy(ws.cs.Call, func(n ast.Node) bool {
-					as, ok := n.(*ast.AssignStmt)
-					if !ok || len(as.Lhs) != 1 {
-						return false
+					if storesRecordKey(info, n, ws.h, ko, paxField) {
+						return true
 					}
-					ix, ok := ast.Unparen(as.Lhs[0]).(*ast.IndexExpr)
-					if !ok || constOf(info, ix.Index) != ko {
-						return false
+					// or a helper of the package that stores the key into the header it is given, on every path
+					for _, call := range callsIn(n) {
+						fn, ok := calleeObj(info, call).(*types.Func)
+						if !ok || !inRepo(fn) {
+							continue
+						}
+						g := c.byObj[fn]
+						if g == nil || g.Body() == nil || g.Pkg != f.Pkg {
+							continue
+						}
+						sig := fn.Type().(*types.Signature)
+						for i, a := range call.Args {
+							if objOfIdent(info, a) != ws.h || i >= sig.Params().Len() {
+								continue
+							}
+							hp := sig.Params().At(i)
+							gfl := c.flow(g)
+							all, any := true, false
+							for _, r := range returnsIn(g) {
+								dom, reach := gfl.dominatedBy(r, func(m ast.Node) bool { return storesRecordKey(g.Pkg.TypesInfo, m, hp, ko, paxField) }, nil)
+								if reach {
+									any = true
+									if !dom {
+										all = false
+									}
+								}
+							}
+							if len(returnsIn(g)) == 0 {
+								// no return statement: the store has to be a top-level statement
+								for _, st := range g.Body().List {
+									if storesRecordKey(g.Pkg.TypesInfo, st, hp, ko, paxField) {
+										any = true
+									}
+								}
+							}
+							if any && all {
+								return true
+							}
+						}
 					}
-					se, ok := ast.Unparen(ix.X).(*ast.SelectorExpr)
-					return ok && (paxField == nil || selField(info, se) == paxField) && objOfIdent(info, se.X) == ws.h
+					return false
 				}, nil)
 				if !reach {
 					continue
@@ -3718,9 +3752,27 @@ func rulePaddingIsFreshZeros(rule string) func(*Ctx) {
 				n++
 				arg := ast.Unparen(cs.Call.Args[0])
 				fresh := false
-				if mk, ok := arg.(*ast.CallExpr); ok {
-					if b, ok := calleeObj(info, mk).(*types.Builtin); ok && b.Name() == "make" {
-						fresh = true
+				isMake := func(e ast.Expr) bool {
+					mk, ok := ast.Unparen(e).(*ast.CallExpr)
+					if !ok {
+						return false
+					}
+					b, ok := calleeObj(info, mk).(*types.Builtin)
+					return ok && b.Name() == "make"
+				}
+				if isMake(arg) {
+					fresh = true
+				} else if o := objOfIdent(info, arg); o != nil {
+					// a local defined exactly once by make and used nowhere else
+					if st, dcall, _ := defOf(f, o); st != nil && dcall != nil && isMake(dcall) {
+						uses := 0
+						ast.Inspect(f.Body(), func(m ast.Node) bool {
+							if id, ok := m.(*ast.Ident); ok && info.Uses[id] == o {
+								uses++
+							}
+							return true
+						})
+						fresh = uses == 1
 					}
 				}
 				c.verdictIf(fresh, rule, f, fmt.Sprintf("raw write#%d", n), cs.Call.Pos(), "the padding is a freshly allocated zero slice", "bytes other than a fresh `make([]byte, n)` are written to the drive next to the archive ("+exprString(arg)+"): a reused buffer carries earlier content - plaintext - into the record padding")
@@ -3757,11 +3809,15 @@ func ruleRestoreOnlyThroughFetch(rule string) func(*Ctx) {
 			return
 		}
 		fetchArgs := map[ast.Expr]bool{}
+		var fetchLits []*ast.FuncLit
 		scan := func(g *FuncInfo) {
 			for _, cs := range g.calls {
 				if cs.Target == fetch {
 					for _, a := range cs.Call.Args {
 						fetchArgs[ast.Unparen(a)] = true
+						if lit, ok := ast.Unparen(a).(*ast.FuncLit); ok {
+							fetchLits = append(fetchLits, lit) // an adapter closure handed to Fetch
+						}
 					}
 				}
 			}
@@ -3779,7 +3835,13 @@ func ruleRestoreOnlyThroughFetch(rule string) func(*Ctx) {
 			for _, pv := range cbs {
 				if info.Uses[id] == types.Object(pv) {
 					n++
-					c.verdictIf(fetchArgs[id], rule, f, fmt.Sprintf("%s use#%d", pv.Name(), n), id.Pos(), "the callback is handed to recovery.Fetch", "Restore uses its "+pv.Name()+" callback outside recovery.Fetch: the entry is materialised without the record having been decrypted and verified, so a restore with a wrong key (or of a forged record) succeeds for it")
+					inAdapter := false
+					for _, lit := range fetchLits {
+						if id.Pos() >= lit.Pos() && id.End() <= lit.End() {
+							inAdapter = true
+						}
+					}
+					c.verdictIf(fetchArgs[id] || inAdapter, rule, f, fmt.Sprintf("%s use#%d", pv.Name(), n), id.Pos(), "the callback is handed to recovery.Fetch", "Restore uses its "+pv.Name()+" callback outside recovery.Fetch: the entry is materialised without the record having been decrypted and verified, so a restore with a wrong key (or of a forged record) succeeds for it")
 				}
 			}
 			return true
@@ -4009,11 +4071,44 @@ func rulePasswordVerbatim(rule string) func(*Ctx) {
 				stack = append(stack, nd)
 				return true
 			})
+			// locals that merely hold the password (`pw := password`) are the password
+			alias := map[types.Object]bool{pv: true}
+			for changed := true; changed; {
+				changed = false
+				walkOwn(f.Body(), func(nd ast.Node) {
+					as, ok := nd.(*ast.AssignStmt)
+					if !ok || as.Tok != token.DEFINE || len(as.Lhs) != len(as.Rhs) {
+						return
+					}
+					for i, r := range as.Rhs {
+						if o := objOfIdent(info, r); o != nil && alias[o] {
+							if l := objOfIdent(info, as.Lhs[i]); l != nil && !alias[l] {
+								if _, dcall, _ := defOf(f, l); dcall == nil {
+									alias[l] = true
+									changed = true
+								}
+							}
+						}
+					}
+				})
+			}
 			k := 0
 			ast.Inspect(f.Body(), func(nd ast.Node) bool {
 				id, ok := nd.(*ast.Ident)
-				if !ok || info.Uses[id] != types.Object(pv) {
+				if !ok || !alias[info.Uses[id]] {
 					return true
+				}
+				// the defining `pw := password` itself
+				if as, ok := parent[id].(*ast.AssignStmt); ok && as.Tok == token.DEFINE {
+					isRhs := false
+					for i, r := range as.Rhs {
+						if r == ast.Expr(id) && i < len(as.Lhs) && alias[objOfIdent(info, as.Lhs[i])] {
+							isRhs = true
+						}
+					}
+					if isRhs {
+						return true
+					}
 				}
 				n++
 				k++
@@ -4407,4 +4502,17 @@ func ruleRenameMoves(rule string) func(*Ctx) {
 			c.unresolved("STFS.Rename no longer returns the result of Operations.Move")
 		}
 	}
+}
+
+func storesRecordKey(info *types.Info, n ast.Node, h types.Object, key types.Object, paxField *types.Var) bool {
+	as, ok := n.(*ast.AssignStmt)
+	if !ok || len(as.Lhs) != 1 {
+		return false
+	}
+	ix, ok := ast.Unparen(as.Lhs[0]).(*ast.IndexExpr)
+	if !ok || constOf(info, ix.Index) != key {
+		return false
+	}
+	se, ok := ast.Unparen(ix.X).(*ast.SelectorExpr)
+	return ok && (paxField == nil || selField(info, se) == paxField) && objOfIdent(info, se.X) == h
 }
